@@ -83,7 +83,9 @@ class SafeLearner(Learner):
         no_len         = lambda item: not hasattr(item,'__len__')
         is_all_dicts   = all(isinstance(p,dict) for p in pred)
         is_dict_col    = isinstance(pred,dict)
-        is_dict_col_kw = is_all_dicts and pred[0].keys() != pred[-1].keys() and len(pred)==2
+        #the part in front of the kwargs is a hint dict, the kwargs may be any Mapping (see has_kwargs)
+        is_hint_and_kw = not is_dict_col and len(pred)==2 and isinstance(pred[0],dict) and isinstance(pred[-1],abc.Mapping)
+        is_dict_col_kw = is_hint_and_kw and pred[0].keys() != pred[-1].keys()
         is_dict_row    = is_all_dicts and pred[0].keys() == pred[-1].keys()
 
         if is_dict_col or is_dict_col_kw : return 'col'
@@ -206,7 +208,8 @@ class SafeLearner(Learner):
             return try_else(lambda: len(obj), 0)
         if out is None:
             raise CobaException("The given prediction was none and did not match the batch_size.")
-        if all(isinstance(p,dict) for p in out) and out[0].keys() != out[-1].keys(): #pragma: no cover
+        is_hint_and_kw = not isinstance(out,dict) and len_or_0(out)==2 and isinstance(out[0],dict) and isinstance(out[-1],abc.Mapping)
+        if (is_hint_and_kw or all(isinstance(p,dict) for p in out)) and out[0].keys() != out[-1].keys(): #pragma: no cover
             out = out[0]
         if isinstance(out,dict):
             is_valid = expected_len == len_or_0(next(iter(out.values())))
